@@ -54,6 +54,8 @@ def gen(rng):
             style = rng.choice(STYLES)
             text = text_of(rng, cols)
             speed = rng.choice([0, 1, 50, 200, 20])
+            if rng.random() < 0.08:
+                speed = rng.choice([65536, 70000, 65735, 131080])   # more than 16 bits of milliseconds
             loop = rng.random() < 0.5
             kw = []
             form = rng.random()
@@ -65,6 +67,19 @@ def gen(rng):
             else:
                 L.append(f"sp = {speed}")
                 L.append(f"lcd{li}.animate(\"{sp_style}\", {r}, {text!r}, speed_ms=sp, loop={loop})")
+            if rng.random() < 0.2:
+                # the animation is started from inside a block (try/except, for, if-else): it still has to be ticked
+                call = L.pop()
+                pre = []
+                if call.startswith("lcd") and L and L[-1].startswith("sp = "):
+                    pre = [L.pop()]
+                wrap = rng.choice(["try", "for", "ifelse"])
+                if wrap == "try":
+                    L += pre + ["try:", "    " + call, "except:", "    pass"]
+                elif wrap == "for":
+                    L += pre + ["for once in range(1):", "    " + call]
+                else:
+                    L += pre + ["if 2 > 3:", "    pass", "else:", "    " + call]
             L.append(f"mon.write(\"@start\")")
             anims.append({"lcd": li, "row": r, "style": style, "text": text, "speed": speed, "loop": loop, "cols": cols,
                           "static_rows": static_rows})
@@ -236,11 +251,20 @@ def run_host_case(case):
         LCD._verif_wrapped = True
     problems = []
     ticks = 0
+    bystander = None
+
+    def anim_view(d):
+        return sorted((repr(k), bool(getattr(a, "active", None)), getattr(a, "text", None), getattr(a, "row", None)) for k, a in d.animations.items())
+
     for j in range(n):
         r = rng_for(PROP, sd, "host", idx, j)
         cols = r.choice([1, 2, 8, 16, 20, 5, r.randint(1, 40)])
         rows = r.choice([1, 2, 4])
+        by_view = anim_view(bystander) if bystander is not None else None
         lcd = LCD(rs=1, en=2, d4=3, d5=4, d6=5, d7=6, cols=cols, rows=rows) if r.random() < 0.5 else LCD(i2c_addr=39, cols=cols, rows=rows)
+        if bystander is not None and anim_view(bystander) != by_view:
+            problems.append(("host-cross-display", f"constructing another LCD changed the animations of an existing display: {by_view} -> {anim_view(bystander)}"))
+            by_view = anim_view(bystander)
         style = r.choice(STYLES)
         row = r.randrange(rows)
         text = text_of(r, cols)
@@ -257,6 +281,12 @@ def run_host_case(case):
             continue
         except Exception as e:  # noqa: BLE001
             problems.append(("host-animate-raises", f"animate({label}) raised {type(e).__name__}: {e}"))
+            continue
+        if bystander is not None and anim_view(bystander) != by_view:
+            problems.append(("host-cross-display", f"animate() on one LCD changed the animations of another display: {by_view} -> {anim_view(bystander)}"))
+        if not lcd.animations:
+            problems.append(("host-animate-lost", f"animate({label}) registered no animation"))
+            bystander = lcd
             continue
         state = list(lcd.animations.values())[-1]
         B = bound(len(text), cols)
@@ -281,6 +311,18 @@ def run_host_case(case):
                 problems.append(("host-tick-raises", f"tick({now}) on {label} raised {type(e).__name__}: {e}"))
                 break
             ticks += 1
+            if bystander is not None and k % 3 == 0:
+                # a second, independent display ticked in the same loop: neither may touch the other's rows
+                mine = list(lcd.buffer)
+                try:
+                    bystander.tick(now)
+                except PostBroken:
+                    problems.append(("host-frame-width", f"tick({now}) on a second display while {label} runs: row width broken"))
+                except Exception as e:  # noqa: BLE001
+                    problems.append(("host-cross-display", f"tick({now}) on a second display while {label} runs raised {type(e).__name__}: {e}"))
+                    bystander = None
+                if list(lcd.buffer) != mine:
+                    problems.append(("host-cross-display", f"ticking another display changed the buffer of the display running {label}"))
             stepped = state.last_tick != before_tick or (state.last_tick == now and before_tick == now and False)
             if state.last_tick == now and before_tick != now:
                 if last_step_t is not None and last_step_t > 0 and speed > 0 and now - last_step_t < speed:
@@ -296,6 +338,7 @@ def run_host_case(case):
                 break
         if loop and not state.active:
             problems.append(("host-looping-stopped", f"{label}: looping animation became inactive"))
+        bystander = lcd
     return {"problems": problems[:6], "ticks": ticks, "evals": evals_global["n"]}
 
 
